@@ -72,6 +72,8 @@ class IGEOS_Solver(ExactSolver):
         """Set default values if necessary and check for valid inputs.
         """
         super().__init__(**kwargs)
+        if min(self.rl, self.rr, self.pl, self.pr) <= 0:
+            raise ValueError('densities and pressures must be positive')
 
     @print_when_verbose
     def _run(self, x, t):
@@ -187,6 +189,8 @@ class GenEOS_Solver(ExactSolver):
         """Set default values if necessary and check for valid inputs.
         """
         super().__init__(**kwargs)
+        if min(self.rl, self.rr, self.pl, self.pr) <= 0:
+            raise ValueError('densities and pressures must be positive')
 
     @print_when_verbose
     def _run(self, x, t):
